@@ -775,6 +775,7 @@ class Explorer:
         self.deadline = None
         self.timed_out = False
         self.grid_budget = 4       # exactly-representable counterexample models requested per task (each may cost seconds)
+        self.diverse_budget = 12   # extra counterexample models per task that differ from the first in one input (moves off tolerance boundaries)
         self.xcheck_budget = 0     # property obligations of this task that are re-decided by cvc5 (second solver)
         self.xcheck = {"agree": 0, "disagree": 0, "cvc5_unknown": 0, "samples": []}
 
@@ -1138,6 +1139,21 @@ class SymCtx:
                 r2, m2 = self._find_model([neg] + outside, grid=True)
                 if m2 is not None:
                     self.candidates.append({"label": label, "region": None, "inputs": self.input_model(m2)})
+            # the first model tends to sit ON a constraint boundary (a vertex), where float evaluation of a tolerance test can
+            # fall on the other side; ask for models that differ from it by >= 1/1024 in one real input at a time
+            env0 = self.input_model(m)
+            for name, spec in list(self.inputs.items()):
+                if self.ex.diverse_budget <= 0:
+                    break
+                if spec[0] != "real":
+                    continue
+                self.ex.diverse_budget -= 1
+                v = env0[name]
+                vq = z3.RealVal(str(Fraction(v["q"][0], v["q"][1]))) if isinstance(v, dict) else z3.RealVal(str(Fraction(v)))
+                x = zvar(name)
+                r3, m3 = self._find_model([neg] + outside + [z3.Or(x >= vq + z3.RealVal("1/1024"), x <= vq - z3.RealVal("1/1024"))])
+                if r3 == "sat":
+                    self.candidates.append({"label": label, "region": None, "inputs": self.input_model(m3)})
         elif r == "unknown":
             self.unknown += 1
         for rid, t in self.regions:
